@@ -77,6 +77,11 @@ func (h *Handler) handleDiscover(p packet.DHCP4, options packet.DHCP4Options) (d
 		}
 	}
 
+	// a previous offer may have been taken by another client in the meantime
+	if h.inUse(lease, lease.IPOffer) {
+		lease.IPOffer = netip.Addr{}
+	}
+
 	if !lease.IPOffer.IsValid() {
 		if err := h.allocIPOffer(lease, reqIP); err != nil {
 			Logger.Msg("discover all ips allocated, failing silently").Error(err).Write()
